@@ -147,6 +147,11 @@ fn main() {
             let s = tables::measure();
             let path = &args[2];
             let old = std::fs::read_to_string(path).unwrap_or_default();
+            if s.contains("TABLE-PROBE-PANICKED") {
+                // keep the previous tables (the model keeps building) and tell the runner
+                for l in s.lines().filter(|l| l.contains("TABLE-PROBE-PANICKED")) { println!("{}", l.trim_start_matches("-- ")); }
+                std::process::exit(3);
+            }
             if old != s {
                 std::fs::write(path, s).unwrap();
                 println!("tables: rewritten");
